@@ -94,6 +94,25 @@ TextSeqUpTo(al, n) == IF n = 0 THEN << <<>> >> ELSE TextSeqUpTo(al, n - 1) \o Te
 Run(G, entry, txt, p) ==
     LET r == EvalEntry(G, entry, txt, p) IN <<entry, txt, p, r.t, r.v, r.e, r.far>>
 
+(* a run of a curried class entry point: entry is emitted as <<name, values>> *)
+RunArgs(G, entry, vals, txt, p) ==
+    LET r == EvalEntryArgs(G, entry, vals, txt, p) IN <<<<entry, vals>>, txt, p, r.t, r.v, r.e, r.far>>
+
+(* every position of every text *)
+RECURSIVE AllPos(_, _, _)
+AllPos(texts, i, p) ==
+    IF i > Len(texts) THEN <<>>
+    ELSE IF p > Len(texts[i]) THEN AllPos(texts, i + 1, 0)
+    ELSE << <<texts[i], p>> >> \o AllPos(texts, i, p + 1)
+
+(* one JSON line: grammar, configuration, runs of `entries` x (text, pos) pairs *)
+EmitCasePos(G, cfg, entries, tps) ==
+    PrintT(ToJson([g |-> G, cfg |-> cfg,
+                   runs |-> [k \in 1..(Len(entries) * Len(tps)) |->
+                               LET en == entries[((k - 1) \div Len(tps)) + 1]
+                                   tp == tps[((k - 1) % Len(tps)) + 1]
+                               IN Run(G, en, tp[1], tp[2])]]))
+
 (* one JSON line: the grammar, its configuration, and every run *)
 EmitCase(G, cfg, entries, texts) ==
     PrintT(ToJson([g |-> G, cfg |-> cfg,
